@@ -38,10 +38,32 @@ def run_impl(case):
 def model_case(case):
     if any(h.get("late") for h in case.get("handlers") or []):
         return None        # registration while the loop runs is not an action of the machine model: such cases are judged by the oracle on the implementation only
-    return {k: v for k, v in case.items() if not k.startswith("_")}
+    # fuel: the model's history must reach at least as far as the implementation's observation budget (the history flags that classify known findings
+    # are computed on it)
+    return dict({k: v for k, v in case.items() if not k.startswith("_")}, fuel=MODEL_FUEL)
+
+
+MODEL_FUEL = 40000
+
+
+def truncate(case, obs, model):
+    """a run cut by the budgets on both sides (a non-terminating program): the oracle is applied to the prefix of the implementation's observation that the
+    model's history covers too (the model's history flags, which classify the known findings, say nothing about what lies beyond its own cut)"""
+    if not isinstance(model, dict) or not isinstance(obs, dict) or "xlog" not in obs or "outcome" not in model or "log" not in model: return obs
+    if norm_outcome(model["outcome"]) != ["fuel"]: return obs
+    n = max(0, len(model["log"]) - 2)
+    if len(obs["log"]) <= n: return obs
+    k = 0; cut = len(obs["xlog"])
+    for i, (ev, ctx) in enumerate(obs["xlog"]):
+        if ev[0] not in ("api", "api<", "cb<", "end"):
+            k += 1
+            if k > n: cut = i; break
+    out_at = next((c.get("out") for e, c in reversed(obs["xlog"][:cut]) if c.get("out") is not None), 0)
+    return dict(obs, outcome=["fuel"], log=obs["log"][:n], xlog=obs["xlog"][:cut], out=obs["out"][:out_at] if isinstance(obs.get("out"), str) else obs.get("out"))
 
 
 def compare(case, impl, model):
+    if "FLAG-FOLD-MISMATCH" in model.get("flags", []): return "the driver's linear history folds disagree with the Spec's decision procedures on this case"
     mo = norm_outcome(model["outcome"]); io = impl["outcome"]
     if mo == ["fuel"] or io == ["fuel"]:
         return None                       # non-terminating program: cut by the budgets, not compared
